@@ -593,12 +593,13 @@ func cpuGenHalt(c *ctx, x *cpuRun) {
 						// bytes the follower does not consume are executed (and with the halt bug the second byte
 						// of a CB follower is executed again as a plain opcode): keep them harmless
 						_, _ = fixOperands(r, false, op, &rs)
+						rs.cc = 0x80 + uint8(r.intn(0x7f)) // any (FF00+C) access stays in HRAM
 						op1, op2 := uint8(0), uint8(0)
 						if op == 0xe0 || op == 0xf0 {
-							op1 = 0x80 + uint8(r.intn(0x7f))
+							op1 = 0x80 + uint8(r.intn(0x40)) // HRAM address that is also a harmless opcode (ALU A,r)
 						}
 						if op == 0xea || op == 0xfa || op == 0x08 {
-							op2 = safeHi(r)
+							op2 = 0xc1 + uint8(r.intn(0x1d)) // WRAM page; as an opcode it never touches I/O
 						}
 						x.do("reset")
 						code := []uint8{0x76}
